@@ -15,7 +15,7 @@ EXTENDS SpyneSignatures
 Fs(n, sub, t, min, max) == [n |-> n, t |-> t, min |-> min, max |-> max, sub |-> sub]
 Pub(f) == IF "sub" \in DOMAIN f THEN f.sub ELSE f.n
 \* wire index of the k-th element ("sparse": distinct, increasing, and not in string order)
-Ix(cfg, k) == IF cfg.idx = "contig" THEN k - 1 ELSE <<2, 10, 11, 25, 100, 101>>[k]
+Ix(cfg, k) == IF cfg.idx = "contig" THEN k - 1 ELSE <<2, 10, 11, 25, 100, 101, 102, 103, 200, 201, 1000, 1001>>[k]
 RECURSIVE FlatV(_, _, _, _), FlatItems(_, _, _, _, _), FlatFields(_, _, _, _, _)
 FlatSeqOf(t, items, key, cfg) == FlatItems(t, items, key, cfg, 1)
 FlatItems(t, items, key, cfg, k) ==
@@ -72,6 +72,8 @@ C3Vals == {ObjV("C", <<d, ds, m, n, tags>>) :
 F3 == {Case("F3", "wrapped", <<F("c", C3, 0, 1), F("k", Prim("Integer"), 0, 1)>>, <<v, Leaf("5")>>, <<Prim("Integer")>>, <<Leaf("5")>>) : v \in C3Vals}
       \cup {Case("F3", "wrapped", <<F("a", Arr(D3), 0, 1)>>, <<SeqV(<<Da, Db, Dc>>)>>, <<Prim("Integer")>>, <<Leaf("5")>>),
             Case("F3", "wrapped", <<F("a", Arr(D3), 0, 1)>>, <<SeqV(ManyD)>>, <<Prim("Integer")>>, <<Leaf("5")>>),
+            \* twelve elements: as strings, index 10 sorts before index 2
+            Case("F3", "wrapped", <<F("a", Arr(D3), 0, 1)>>, <<SeqV([k \in 1..12 |-> Dv3(Leaf(ToString(100 + k)), Nil, Nil)])>>, <<Prim("Integer")>>, <<Leaf("5")>>),
             Case("F3", "wrapped", <<F("m", D3, 0, 99), F("z", Prim("Unicode"), 0, 1)>>, <<SeqV(<<Dc, Da>>), Leaf("end")>>, <<Prim("Integer")>>, <<Leaf("5")>>)}
 \* (empty arrays have no spelling of their own in this notation: cases whose values hold one are left to the other protocols)
 \* (nor has an object none of whose members has a value)
